@@ -84,7 +84,7 @@ PROPS = {
                  "table and left associativity require; (a') exhaustively every string-literal content of up to four pieces over {plain, escaped backslash, escaped quote, \\n escape, space, non-ASCII, raw newline, unicode escape} "
                  "followed by more code (the literal must end at its own closing quote); (b) seeded random programs from the reference grammar (imports with unqualified/type/aliased members, custom types with generics and labelled fields, aliases, constants, "
                  "functions with labelled/annotated/discarded parameters, attributes, let/let assert/use/expression statements, all expression and pattern forms, type expressions) printed with random legal trivia. "
-                 "Non-trivial = contains a function body; distinct by FNV-1a of the text."),
+                 "Non-trivial = contains a function body; distinct by FNV-1a of the text. One generated case in 600 is a large module: the definitions of 250-500 generated modules in one file (~140 KB; thousands of calls, operators and field accesses in total), so that anything the parser counts per module rather than per nesting path is reached."),
         "exhaustive_scope": "operator pairs and triples, string-literal contents up to 4 pieces; programs are sampled",
         "assumptions": [
             "oracle: zero syntax errors and CST read back through the public typed accessors == the generator's intended structure (S-expression equality), plus accessor cross-checks (op_kind table; Param.ty / StmtLet.body must return the child in that slot)",
@@ -128,7 +128,7 @@ PROPS = {
                  "list elements, arguments, statements, clauses, alternatives ...) with 12 000 links and a block of 12 000 `use` statements (they nest for every recursive walk although the parser never recursed; quick tier: 4 offsets without the usage-search queries). Queries: hover, goto, references, highlight, completion (plain, '.', '@'), signature help, prepare-rename, rename (valid lower, valid upper, invalid), "
                  "semantic highlight (full, 4 ranges), diagnostics, syntax tree - on every file including gleam.toml, at every token boundary, offset 0, EOF and around/inside every multi-byte character "
                  "(sampled down to 400 offsets per file for long files). Each runs on a 2 MiB stack under a panic hook; the workspace is journaled first so a process death is attributable. "
-                 "A workspace is non-trivial if it has >=1 damage op or >=2 modules; distinct by FNV-1a of its files. Long constructs also run ACROSS definitions: 3000 functions each calling the next (and each calling the previous, with the caller of the last one first in the file), 3000 aliases each naming the next, 3000 constants, 3000 custom types each wrapping the next - whatever is computed per definition by asking for the one it mentions nests once per link."),
+                 "A workspace is non-trivial if it has >=1 damage op or >=2 modules; distinct by FNV-1a of its files. Long constructs also run ACROSS definitions: 3000 functions each calling the next (and each calling the previous, with the caller of the last one first in the file), 3000 aliases each naming the next, 3000 constants, 3000 custom types each wrapping the next - whatever is computed per definition by asking for the one it mentions nests once per link. Each of these is also driven in a long-lived host: asked (the last definitions first), a declaration prepended to the file, asked again - three edits - so that validation of memoised results walks the same chains."),
         "assumptions": [
             "stack 2 MiB (tokio blocking pool); per-query bounded progress: a query above 20 s is a hang suspect, the shard watchdog makes the rest inconclusive",
             "Cancelled cannot occur (single-threaded sweeps); it is counted if it does",
@@ -161,7 +161,7 @@ PROPS = {
         "death_is_violation": False,
         "rule": ("workspaces of 1-4 modules from the scope-aware generator (names from pools of 4-7 spellings per namespace, so shadowing is the norm; imports qualified, aliased, unqualified, unqualified-aliased, "
                  "type imports; all statement/expression/pattern forms); goto_definition is asked at the start and end offset of EVERY identifier the printer emitted and compared with the binding the generator "
-                 "recorded. A workspace is non-trivial if some module declares one spelling at least twice (shadowing); distinct by FNV-1a of its files; evaluations = goto queries. One workspace in three is split into two local packages (`app` depends on `lib` by path; imports only point from app to lib), so cross-package references, renames and completions are exercised. Second engine (m_types, a quarter of the shards): well-typed programs from the type-directed generator; goto from every recorded use of a local (parameters, let / pattern / clause / use / lambda binders; some spelled like functions or like module accessors, incl. `x.field` on a local that shadows an imported module) must land on its binder."),
+                 "recorded. A workspace is non-trivial if some module declares one spelling at least twice (shadowing); distinct by FNV-1a of its files; evaluations = goto queries. One workspace in three is split into two local packages (`app` depends on `lib` by path; imports only point from app to lib), so cross-package references, renames and completions are exercised. Second engine (m_types, a quarter of the shards): well-typed programs from the type-directed generator; goto from every recorded use of a local (parameters, let / pattern / clause / use / lambda binders; some spelled like functions or like module accessors, incl. `x.field` on a local that shadows an imported module) must land on its binder. One module in five declares a constructor spelled like a prelude one (Nil, Ok, Error, True, False); a local spelled like a module accessor may stand next to a PATTERN qualifier of that spelling (the qualifier must reach the module); shard 0 also runs seven fixed cases for shapes the generator cannot compose (a constant's `module.name` next to a function or constant of that spelling, aliased pattern qualifiers)."),
         "assumptions": [
             "soundness everywhere: an answer must be the recorded declaration (file + focus range as glas defines it per kind: name token; whole variant; whole `label: Type` field; `..name` spread; 0..0 for modules)",
             "completeness on the supported core only (DESIGN §5 C05): uses inside unary operands, guards, `todo as`, qualified constants and module qualifiers in pattern/type position are soundness-only",
@@ -213,7 +213,7 @@ PROPS = {
         "rule": ("generated workspaces of 2-4 modules split over three packages as the server's loader would (root: local; path dependency: local; build/packages/dep: non-local; root -> both, pathdep -> dep); "
                  "for up to 30 [thorough 80] identifier occurrences per workspace x 52 candidate names (all 15 keywords, lower/upper identifiers incl. a 300-char one, discards, mixed case, numbers, string, operators, "
                  "punctuation, empty, whitespace, spaced, dotted, slashed, multi-line, non-ASCII, comments) rename is called and judged against a reference table; prepare_rename is compared with rename(valid name). "
-                 "evaluations = rename/prepare_rename calls; non-trivial = occurrence for which prepare_rename was compared; distinct by (workspace seed, occurrence)."),
+                 "evaluations = rename/prepare_rename calls; non-trivial = occurrence for which prepare_rename was compared; distinct by (workspace seed, occurrence). The cursor sits at the start of the name, inside it, or right behind its last character (one of the three per occurrence, seeded); rename and prepare_rename are asked at the same position."),
         "assumptions": [
             "reference: rename must fail unless the name is exactly one identifier of the class the symbol kind requires (own classifier: [a-z][a-z0-9_]* minus keywords / [A-Z][A-Za-z0-9]*), the occurrence is spelled with the declaration's own name, the symbol is not a module or built-in, and its definition lies in a local package; every accepted rename edits files of local packages only",
             "the statement does not require valid renames to succeed; only prepare_rename <=> rename(valid) is checked in that direction",
@@ -249,7 +249,7 @@ PROPS = {
         "rule": ("documents = exhaustively all strings of <=6 [thorough 7] symbols over {a, LF, 2-byte, 3-byte, 4-byte (2 UTF-16 units)} plus seeded random documents up to 64 KiB with long lines and dense astral runs; "
                  "for every character boundary: line_col_for_pos == the model client's (line, UTF-16 column), pos_for_line_col round trip, strict monotonicity, from_pos agreement; for all (sampled beyond 40 boundaries) ordered pairs "
                  "to_range selects exactly text[a..b] in the model; last_line and end_col_for_line agree with the model. Non-trivial = contains a multi-byte character and a line break; distinct by FNV-1a."
-                 " On the wire (m_lsp engine): a fresh real server per session and a client with its OWN capabilities - general.positionEncodings absent / [utf-16] / [utf-8,utf-16] / [utf-32,utf-16] / [utf-16,utf-8] / all three; semanticTokens.tokenTypes empty / the standard list / without namespace / none of the server's / reordered; optionally work-done progress, workspace/configuration and dynamic watched-file registration (server-to-client requests are answered), clientInfo Neovim / VS Code / absent. The document is a generated module with non-ASCII strings plus a fixed tail that puts identifiers after 2-, 3- and 4-byte characters on their line. Everything the server sends is decoded the way a client must: columns in the encoding the server ANNOUNCED in its initialize result (utf-16 if it announces none; it must be one the client offered), token types through the legend it ANNOUNCED. semanticTokens/full must decode to exactly the (byte range, type) list of Analysis::syntax_highlight on the same text in process; documentHighlight and hover asked at up to 10 [24] identifier tokens (those after non-ASCII text first), the position sent in the announced encoding, must select exactly the byte ranges the in-process analysis answers."),
+                 " On the wire (m_lsp engine): a fresh real server per session and a client with its OWN capabilities - general.positionEncodings absent / [utf-16] / [utf-8,utf-16] / [utf-32,utf-16] / [utf-16,utf-8] / all three; semanticTokens.tokenTypes empty / the standard list / without namespace / none of the server's / reordered; optionally work-done progress, workspace/configuration and dynamic watched-file registration (server-to-client requests are answered), clientInfo Neovim / VS Code / absent. The document is a generated module with non-ASCII strings plus a fixed tail that puts identifiers after 2-, 3- and 4-byte characters on their line. Everything the server sends is decoded the way a client must: columns in the encoding the server ANNOUNCED in its initialize result (utf-16 if it announces none; it must be one the client offered), token types through the legend it ANNOUNCED. semanticTokens/full must decode to exactly the (byte range, type) list of Analysis::syntax_highlight on the same text in process; documentHighlight and hover asked at up to 10 [24] identifier tokens (those after non-ASCII text first), the position sent in the announced encoding, must select exactly the byte ranges the in-process analysis answers. Then 1-3 ASCII insertions left of a non-ASCII character are sent as incremental changes and semanticTokens/full is asked again: it must decode to the in-process analysis of the new text."),
         "exhaustive_scope": "documents up to the stated length over the 5-symbol alphabet, all boundaries and all ordered pairs",
         "assumptions": [
             "LineMap values are obtained through Vfs::set_path_content, i.e. the constructor the server uses; conversions are called through thin wrappers of glas::convert (feature verif)",
@@ -271,7 +271,7 @@ PROPS = {
                  "LSP decoder model: strictly increasing, non-empty, inside its line, type in legend, and decoded (line, UTF-16 start, length, type) == the model's for each range; (b) end to end: generated programs with non-ASCII strings "
                  "and comments -> Analysis::syntax_highlight -> encoder -> decoder, compared with the generator's sidecar (uses of functions -> function, constructor uses and constructor declaration names -> type, module qualifiers -> namespace, "
                  "constants/types/fields/declaration names -> not highlighted, nothing highlighted that is not an identifier); range requests == intersecting sub-sequence of the full answer. Non-trivial = >=2 ranges and a multi-byte character. Third part (m_types engine): well-typed generated programs where the type of every local is known by construction - every use of a function-typed local must be tagged function and every use of a local of another type must carry no tag."
-                 " On the wire (m_lsp engine): a fresh real server per session and a client with its OWN capabilities - general.positionEncodings absent / [utf-16] / [utf-8,utf-16] / [utf-32,utf-16] / [utf-16,utf-8] / all three; semanticTokens.tokenTypes empty / the standard list / without namespace / none of the server's / reordered; optionally work-done progress, workspace/configuration and dynamic watched-file registration (server-to-client requests are answered), clientInfo Neovim / VS Code / absent. The document is a generated module with non-ASCII strings plus a fixed tail that puts identifiers after 2-, 3- and 4-byte characters on their line. Everything the server sends is decoded the way a client must: columns in the encoding the server ANNOUNCED in its initialize result (utf-16 if it announces none; it must be one the client offered), token types through the legend it ANNOUNCED. semanticTokens/full must decode to exactly the (byte range, type) list of Analysis::syntax_highlight on the same text in process; documentHighlight and hover asked at up to 10 [24] identifier tokens (those after non-ASCII text first), the position sent in the announced encoding, must select exactly the byte ranges the in-process analysis answers."),
+                 " On the wire (m_lsp engine): a fresh real server per session and a client with its OWN capabilities - general.positionEncodings absent / [utf-16] / [utf-8,utf-16] / [utf-32,utf-16] / [utf-16,utf-8] / all three; semanticTokens.tokenTypes empty / the standard list / without namespace / none of the server's / reordered; optionally work-done progress, workspace/configuration and dynamic watched-file registration (server-to-client requests are answered), clientInfo Neovim / VS Code / absent. The document is a generated module with non-ASCII strings plus a fixed tail that puts identifiers after 2-, 3- and 4-byte characters on their line. Everything the server sends is decoded the way a client must: columns in the encoding the server ANNOUNCED in its initialize result (utf-16 if it announces none; it must be one the client offered), token types through the legend it ANNOUNCED. semanticTokens/full must decode to exactly the (byte range, type) list of Analysis::syntax_highlight on the same text in process; documentHighlight and hover asked at up to 10 [24] identifier tokens (those after non-ASCII text first), the position sent in the announced encoding, must select exactly the byte ranges the in-process analysis answers. Then 1-3 ASCII insertions left of a non-ASCII character are sent as incremental changes and semanticTokens/full is asked again: it must decode to the in-process analysis of the new text."),
         "exhaustive_scope": "encoder inputs over the small-document space; programs are sampled",
         "assumptions": [
             "locals: the generator does not know whether a local is function-typed in scoped mode, either tag is accepted there; typed programs (engine m_types) decide that clause",
